@@ -248,6 +248,9 @@ func VH_c11_merge_seq_slice_values() {
 }
 
 func mkMap(name string, n int) map[int]int {
+	if zz.Bool(name + ".nil") {
+		return nil // a nil map is an ordinary (empty) operand
+	}
 	m := map[int]int{}
 	k := zz.Choice(name+".n", n+1)
 	for i := 0; i < k; i++ {
